@@ -82,7 +82,7 @@ func newDecoratorAdapter(w *vw.World, cfg *vw.CtlConfig) (*decoratorAdapter, err
 		}
 		c.parentKinds.Set(schema.GroupKind{Group: resource.Group, Kind: resource.Kind}, resource)
 		gv, _ := schema.ParseGroupVersion(parent.APIVersion)
-		c.parentInformers.Set(gv.WithResource(parent.Resource), w.Informers[parent.Resource])
+		c.parentInformers.Set(gv.WithResource(parent.Resource), w.InformerFor(parent.APIVersion, parent.Resource))
 	}
 	c.updateStrategy, err = makeUpdateStrategyMap(w.Resources, dc)
 	if err != nil {
